@@ -355,7 +355,7 @@ def program_specs(tier, seed):
     for i, j in pairs:
         for mid in (False, True):
             specs.append({"prog": DECL + base1[i] + ([["flush"]] if mid else []) + base2[j] + [["flush"]]})
-    nested = statements(1, 2, rnd, 1500 if tier == "thorough" else 150)[len(one):]
+    nested = statements(1, 2, rnd, 5000 if tier == "thorough" else 150)[len(one):]
     for blk in nested:
         specs.append({"prog": DECL + blk + [["flush"]]})
     # measurements into registers and array entries mixed in one subroutine; rotations on one qubit with a gate on another in between
@@ -373,13 +373,13 @@ def program_specs(tier, seed):
         specs.append({"prog": DECL + [["flush"]] + blk + [["flush"]]})
     # three blocks, flushes anywhere (a handle created in the first subroutine and used in the third, with other work in between)
     b3 = atoms(3)
-    for _ in range(2000 if tier == "thorough" else 120):
+    for _ in range(6000 if tier == "thorough" else 120):
         a, b, c = rnd.choice(base1), rnd.choice(base2), rnd.choice(b3)
         f1, f2 = rnd.random() < 0.5, rnd.random() < 0.5
         specs.append({"prog": DECL + a + ([["flush"]] if f1 else []) + b + ([["flush"]] if f2 else []) + c + [["flush"]]})
     if tier == "thorough":
         b4 = atoms(4)
-        for _ in range(400):
+        for _ in range(2000):
             a, b, c, d = rnd.choice(base1), rnd.choice(base2), rnd.choice(b3), rnd.choice(b4)
             fl = [rnd.random() < 0.5 for _ in range(3)]
             specs.append({"prog": DECL + a + ([["flush"]] if fl[0] else []) + b + ([["flush"]] if fl[1] else []) + c + ([["flush"]] if fl[2] else []) + d + [["flush"]]})
